@@ -269,7 +269,7 @@ async def _execute(case, subs, hooks, SimpleNamespace, FakeRequest):
             await it.sleep_spin(it.vt() + 0.5)
         await it.settle(1)
         after = resources()
-        errs = [e[2][-160:] for e in it.errors()]
+        errs = [e[2][-400:] for e in it.errors()]
         await it.unload()
     return {"recs": recs, "task_state": state, "before": before, "after": after, "errors": errs}
 
@@ -327,6 +327,8 @@ class C15(ModelCheck):
                 problems.append("return-time")
         if r["before"] != r["after"]:
             problems.append("leak")
+        if r["errors"]:
+            problems.append("unexpected-error-logged")  # the script catches what wait_until raises; nothing may be logged
         return {"expected": {"outcome": exp, "resources": r["before"], "problems": []}, "observed": {"outcome": obs, "resources": r["after"], "problems": problems},
                 "nontrivial": len(case["cfg"]["conds"]) >= 2 or cancel_at is not None,
                 "classes": ["legacy" if case["cfg"]["legacy"] else "new", "exp-" + exp["kind"]] + ["cond-" + c for c in case["cfg"]["conds"]],
